@@ -143,7 +143,10 @@ func runC12(c *Case) {
 			}
 			ps.Features = feat(chance(r, 55), chance(r, 55))
 			if ps.Kind.IsWS() {
-				ps.TDetails = wamp.Dict{"auth": wamp.Dict{"cookie": "s3cr3t-cookie", "request": wamp.Dict{"header": wamp.List{"s3cr3t-cookie"}}}, "peer": "10.0.0.1"}
+				ps.TDetails = wamp.Dict{"auth": wamp.Dict{"cookie": "s3cr3t-cookie", "request": wamp.Dict{"header": wamp.List{"s3cr3t-cookie"}}}}
+				if chance(r, 50) {
+					ps.TDetails["peer"] = "10.0.0.1"
+				}
 			}
 			join(ps)
 		}
